@@ -101,6 +101,18 @@ def is_unsigned(ct):
     return 'unsigned' in (ct or '') or (ct or '').strip() in ('size_t',)
 
 
+def _strongest(facts):
+    """of the facts with one and the same linear part (x - y + 1 >= 0, x - y + 3 >= 0) only the one with the smallest
+    constant says anything"""
+    best = {}
+    for f in facts:
+        k = frozenset(f.t.items())
+        g = best.get(k)
+        if g is None or f.c < g.c:
+            best[k] = f
+    return set(best.values())
+
+
 class BoundsAnalysis:
     def __init__(self, prog, cg, min_param_cap=None):
         self.check_reads = os.environ.get('VERIF_READS', '1') == '1'
@@ -739,6 +751,8 @@ class _FuncAnalysis:
             if l.is_const():
                 continue
             s.add(l)
+        if len(s) > MAX_FACTS:
+            s = _strongest(s)
         if len(s) > MAX_FACTS:
             # keep the syntactically smallest facts
             s = set(sorted(s, key=lambda x: (len(x.t), repr(x)))[:MAX_FACTS])
@@ -1990,6 +2004,52 @@ class _FuncAnalysis:
             out += [sl, -sl]
         return out
 
+    def lockstep_pairs(self):
+        """{(x, y): +1 | -1}: locals that are modified only by a unit step (of the same size in bytes), at one site each
+        apart from plain assignments outside loops, both sites in the same basic block: +1 same direction, -1 opposite"""
+        if hasattr(self, '_lockstep'):
+            return self._lockstep
+        self._lockstep = {}
+        func = self.func
+        steps = {}      # vid -> [(block id, signed byte step)] ; None when modified in another way inside a loop
+        pos = C.elem_positions(func)
+        for n in func.body.walk():
+            t = None
+            step = None
+            if n.k == 'UnaryOperator' and n.get('op') in ('++', '--'):
+                t = strip(n.ch[0])
+                step = 1 if n['op'] == '++' else -1
+            elif n.k == 'CompoundAssignOperator' and n.get('op') in ('+=', '-=') and strip(n.ch[1]).get('v') == 1:
+                t = strip(n.ch[0])
+                step = 1 if n['op'] == '+=' else -1
+            elif n.k == 'CompoundAssignOperator' or (n.k == 'BinaryOperator' and n.get('op') == '='):
+                t = strip(n.ch[0])
+            elif n.k == 'UnaryOperator' and n.get('op') == '&':
+                t = strip(n.ch[0])
+            if t is None or t.k != 'DeclRefExpr' or t['ref'].get('kind') not in ('var', 'parm'):
+                continue
+            vid = t['ref']['id']
+            if step is None:
+                if n.k == 'UnaryOperator' or C.in_loop(func, n):
+                    steps[vid] = None
+                continue
+            if steps.get(vid, []) is None:
+                continue
+            el = n if n.id in pos else C.cfg_elem_of(func, n)
+            if el is None or el.id not in pos:
+                steps[vid] = None
+                continue
+            size = self.elem_size(t) if is_ptr_ct(t.get('ct')) else 1
+            steps.setdefault(vid, []).append((pos[el.id][0], step * size))
+        ones = {v: l[0] for v, l in steps.items() if l is not None and len(l) == 1}
+        vs = sorted(ones)
+        for i, x in enumerate(vs):
+            for y in vs[i + 1:]:
+                (bx, sx), (by, sy) = ones[x], ones[y]
+                if bx == by and abs(sx) == abs(sy) and C.in_loop(func, func.blocks[bx].elems[0]):
+                    self._lockstep[(x, y)] = 1 if sx == sy else -1
+        return self._lockstep
+
     # ---- fixpoint -------------------------------------------------------------------------------------
     def join(self, a, b):
         fa, fb = a.facts, b.facts
@@ -2019,6 +2079,32 @@ class _FuncAnalysis:
                     tried.add(h)
                     if self.entails(a, h) and self.entails(b, h):
                         keep.add(h)
+        # two variables that are stepped together, once each, in one basic block (`*out++ = *src++; room--;`): their
+        # sum or difference is a loop invariant although nothing cancels in it
+        pairs = self.lockstep_pairs()
+        if pairs:
+            pool = list(fa | fb)
+            for f in rest:
+                fv = [q for q in f.t if q[0] == 'var']
+                for x in fv:
+                    for (a_, b_), sign in pairs.items():
+                        if x[1] != a_ and x[1] != b_:
+                            continue
+                        other = b_ if x[1] == a_ else a_
+                        for g in pool:
+                            if g is f:
+                                continue
+                            y = next((q for q in g.t if q[0] == 'var' and q[1] == other), None)
+                            if y is None or x in g.t or y in f.t:
+                                continue
+                            # same direction: coefficients must be opposite; opposite direction: equal
+                            if f.t[x] * sign != -g.t[y]:
+                                continue
+                            h = f + g
+                            if len(h.t) > 5 or h in keep:
+                                continue
+                            if self.entails(a, h) and self.entails(b, h):
+                                keep.add(h)
         # off-by-small-constant relaxations of facts that hold on one side only
         for f in (fa | fb) - keep:
             for k in (1, 2):
@@ -2038,7 +2124,7 @@ class _FuncAnalysis:
                 if self.entails(a, g) and self.entails(b, g):
                     keep.add(g)
                     break
-        return State(frozenset(keep), a.regions & b.regions)
+        return State(frozenset(_strongest(keep)), a.regions & b.regions)
 
     def run(self):
         func = self.func
